@@ -4,7 +4,9 @@
 From Coq Require Import ZArith Reals List Bool.
 From Rubato.Model Require Import Num Reals Base Async Resamplers.
 From Rubato.Gen Require Import FastGen.
-From Rubato.Proofs Require Import MalformedP FastInR FastOutR FastCtorR SincInR SincOutR.
+From Rubato.Proofs Require Import MalformedP FastInR FastOutR FastCtorR SincInR SincOutR FftInOutP FftInR FftOutR.
+From Rubato.Model Require Import Fft.
+From Rubato.Gen Require Import SynchroGen.
 From Rubato.Gen Require Import SincGen.
 Import ListNotations.
 Local Open Scope R_scope.
@@ -55,6 +57,22 @@ Theorem C07_sinc_out_bound_R : forall env blen ops (s s' : @astate CR SR (@SincF
   Rabs (IZR nout - uratio s * IZR nin) <= uratio s * (IZR (uL s) + 1).
 Proof. exact so_accounting_const_R. Qed.
 
+(** FFT resamplers: the block sizes are in the exact ratio of the two rates (the C03_ctor_fft theorems), and over every history
+    the totals differ from that ratio by less than one block: no drift.  FftFixedInOut is exact. *)
+Theorem C07_fft_in_bound_R : forall unit_fn calls (s s' : @fstate CR SR FftFixedIn) nin nout,
+  xi_wf unit_fn s -> xi_run unit_fn s calls = Ok (s', nin, nout) ->
+  (Z.abs (nout * ifin s - ifout s * nin) < ifout s * ifin s)%Z.
+Proof. exact xi_accounting. Qed.
+
+Theorem C07_fft_out_bound_R : forall unit_fn calls (s s' : @fstate CR SR FftFixedOut) nin nout,
+  xo_wf unit_fn s -> xo_run unit_fn s calls = Ok (s', nin, nout) ->
+  (Z.abs (nin * ofout s - ofin s * nout) < ofin s * ofout s)%Z.
+Proof. exact xo_accounting. Qed.
+
+Theorem C07_fft_inout_exact : forall (C : CNum) (S : SNum C) unit_fn calls (s s' : @fstate C S FftFixedInOut) nin nout,
+  xio_wf unit_fn s -> xio_run unit_fn s calls = Ok (s', nin, nout) -> (nout * xfin s = nin * xfout s)%Z.
+Proof. intros C S. exact (@xio_exact C S). Qed.
+
 (** The hypotheses are met by every constructed resampler. *)
 Theorem C07_ctor_fast_in_R : forall ratio maxrel d chunk nch s, (1 <= chunk)%Z -> (0 <= nch)%Z ->
   @fast_in_new CR SR ratio maxrel d chunk nch = inr (RFastIn d s) -> fi_wf s /\ ratio = FastInR.ratio s.
@@ -71,3 +89,6 @@ Print Assumptions C07_fast_out_bound_R.
 Print Assumptions C07_ctor_fast_out_R.
 Print Assumptions C07_sinc_in_bound_R.
 Print Assumptions C07_sinc_out_bound_R.
+Print Assumptions C07_fft_in_bound_R.
+Print Assumptions C07_fft_out_bound_R.
+Print Assumptions C07_fft_inout_exact.
